@@ -59,7 +59,9 @@ KindsR(tk) ==
   ELSE {}
 
 IntInit == <<2, 3, 5, 4>>
-Store0 == [id \in 1..8 |-> IF id <= 4 THEN VI(IntInit[id]) ELSE VB(id % 2 = 1)]
+\* cells 9 and 10 hold arrays (only the idioms use them)
+Store0 == [id \in 1..10 |-> IF id <= 4 THEN VI(IntInit[id]) ELSE IF id <= 8 THEN VB(id % 2 = 1)
+                            ELSE IF id = 9 THEN VA("int", <<VI(1), VI(2), VI(3)>>) ELSE VA("bool", <<VB(TRUE), VB(FALSE)>>)]
 IntVals == <<7, 3, 2, 5>>
 Rot(p, j) == IntVals[((p + j - 2) % 3) + 1]
 
@@ -145,7 +147,8 @@ IdiomEnv ==
    xs |-> VA("int", <<VI(1), VI(2), VI(3)>>), ys |-> VA("int", <<VI(4), VI(5)>>),
    us |-> VA("int", <<VI(6), VI(3)>>), bs |-> VA("bool", <<VB(TRUE), VB(FALSE)>>),
    t |-> VT(<<VI(7), VI(3)>>), s |-> VS(VI(7)),
-   inc |-> VF("inc"), dbl |-> VF("dbl"), odd |-> VF("odd"), add |-> VF("add"), c |-> VC(1)]
+   inc |-> VF("inc"), dbl |-> VF("dbl"), odd |-> VF("odd"), add |-> VF("add"), c |-> VC(1),
+   ca |-> VC(9), cb |-> VC(10)]
 IdiomOperands == DOMAIN IdiomEnv
 
 Idioms == <<
@@ -187,7 +190,34 @@ Idioms == <<
   <<"xs", "[i]", "*", "ys", "[i]", "+", "n">>,
   <<"n", "+", "xs", "[i]", "*", "ys", "[i]">>,
   <<"inc", "(i)", "**", "dbl", "(i)">>,
-  <<"t", ".0", "%", "k", "-", "s", ".x">>
+  <<"t", ".0", "%", "k", "-", "s", ".x">>,
+  \* a prefix operator and level-3 postfix operators on ONE operand, nothing else in the expression
+  <<"*", "ca", "~", "$+">>,
+  <<"*", "ca", "~", "$*">>,
+  <<"*", "ca", "~", "$]">>,
+  <<"*", "cb", "~", "$&&">>,
+  <<"*", "ca", "~", "@", "inc", "$+">>,
+  \* an initial value that begins with a prefix operator
+  <<"xs", "~", "$*c", "add">>,
+  <<"xs", "~", "$-i", "add">>,
+  <<"n", "+", "xs", "~", "$*c", "add">>,
+  <<"xs", "~", "$*c", "add", "+", "n">>,
+  <<"*", "ca", "~", "$*c", "add">>,
+  <<"xs", "~", "@", "inc", "$-i", "add">>
+>>
+\* sequences whose PRESCRIBED grouping is ill-typed (the prefix operator binds tighter than the level-3 postfix
+\* operators and would be applied to an array / a cell of an array) while another grouping would evaluate:
+\* the checker must refuse them
+RejIdioms == <<
+  <<"-", "xs", "~", "$+">>,
+  <<"-", "xs", "~", "$*">>,
+  <<"!", "bs", "~", "$&&">>,
+  <<"!", "bs", "~", "$||">>,
+  <<"-", "xs", "~", "@", "inc", "$+">>,
+  <<"-", "xs", "~", "$i", "add">>,
+  \* level-1 postfix forms bind tighter than the prefix operator: indexing / slicing the CELL is ill-typed
+  <<"*", "ca", "[i:j]", "~", "$+">>,
+  <<"*", "ca", "[i]">>
 >>
 
 RECURSIVE ClassifyI(_, _, _)
@@ -207,17 +237,20 @@ ClassifyI(names, i, st) ==
 \* ------------------------------------------------------------ rows
 Searched == SetToSeq(VPairSet) \o SetToSeq(VPreBinSet) \o SetToSeq(VBinPreSet) \o SetToSeq(VTripleSet)
 NSearched == Len(Searched)
-NRows == NSearched + Len(Idioms)
+NPos == NSearched + Len(Idioms)
+NRows == NPos + Len(RejIdioms)
 
-RowFam(r) == IF r <= NSearched THEN Searched[r].fam ELSE "v_idiom"
-RowToks(r) == IF r <= NSearched THEN Searched[r].toks ELSE ClassifyI(Idioms[r - NSearched], 1, "E")
+RowFam(r) == IF r <= NSearched THEN Searched[r].fam ELSE IF r <= NPos THEN "v_idiom" ELSE "v_reject"
+RowToks(r) == IF r <= NSearched THEN Searched[r].toks
+              ELSE IF r <= NPos THEN ClassifyI(Idioms[r - NSearched], 1, "E") ELSE ClassifyI(RejIdioms[r - NPos], 1, "E")
 
 \* operands of an idiom in order of first occurrence, embedded operands (i, j) last
 IdiomNames(toks) ==
   LET ps == OpdPos(toks)
       direct == [p \in 1..Len(ps) |-> toks[ps[p]].s]
-      emb == (IF \E x \in 1..Len(toks) : toks[x].s \in {"[i]", "(i)", "$i", "[i:j]"} THEN <<"i">> ELSE <<>>)
+      emb == (IF \E x \in 1..Len(toks) : toks[x].s \in {"[i]", "(i)", "$i", "[i:j]", "$-i"} THEN <<"i">> ELSE <<>>)
              \o (IF \E x \in 1..Len(toks) : toks[x].s = "[i:j]" THEN <<"j">> ELSE <<>>)
+             \o (IF (\E x \in 1..Len(toks) : toks[x].s = "$*c") /\ (\A p \in 1..Len(ps) : toks[ps[p]].s # "c") THEN <<"c">> ELSE <<>>)
   IN direct \o emb
 
 Pick(r) ==
@@ -286,12 +319,19 @@ InvShape == InRow => /\ Accepted(Cur) /\ Determined(Cur) /\ Settled(Cur)
 \* a chosen assignment really discriminates: the prescribed grouping evaluates to a first-order
 \* value, no alternative is outside the model, every alternative is rejected or differs
 InvDiscriminates ==
-  InRow /\ vPick.found =>
+  InRow /\ vRow <= NPos /\ vPick.found =>
     LET want == Ev(Group(Cur), vPick.env, Store0)
     IN /\ ~IsBad(want.v) /\ FirstOrder(want.v)
        /\ \A t \in Others(Cur) :
             LET o == Ev(t, vPick.env, Store0)
             IN o.v # Unm /\ (o.v = TErr \/ Obs(o, vPick.vals) # Obs(want, vPick.vals))
+\* the refused idioms: the prescribed grouping is ill-typed, no grouping is outside the model, and some other
+\* grouping would have evaluated to a first-order value (so accepting the text is observable)
+InvRejected ==
+  InRow /\ vRow > NPos =>
+    /\ Ev(Group(Cur), vPick.env, Store0).v = TErr
+    /\ \A t \in Others(Cur) : Ev(t, vPick.env, Store0).v # Unm
+    /\ \E t \in Others(Cur) : LET o == Ev(t, vPick.env, Store0) IN ~IsBad(o.v) /\ FirstOrder(o.v)
 \* the hand-written idioms are all usable
 InvIdioms == InRow /\ vRow > NSearched => vPick.found
 \* evaluation is a function of the tree: the two other formulations of the grouping give the same value
@@ -300,5 +340,5 @@ InvEvalAgrees == InRow /\ vPick.found =>
 
 Emit ==
   /\ TLCGet("stats").distinct > 0
-  /\ PrintT(<<"VROWS", ToJson([searched |-> NSearched, idioms |-> Len(Idioms)])>>)
+  /\ PrintT(<<"VROWS", ToJson([searched |-> NSearched, idioms |-> Len(Idioms) + Len(RejIdioms)])>>)
 =============================================================================
